@@ -105,10 +105,21 @@ APlan1 ==
     /\ \E e \in ChoicesAt(0, TRUE) : plan' = <<e>>
     /\ UNCHANGED <<body, stk, dead, nop, ncond, done>>
 
+\* two injections interact when they sit on the same instruction or one sits inside the
+\* construct the other is attached to (e.g. a probe on an `if` and one on a branch to it)
+Related(a, b) ==
+    \/ a.site = b.site
+    \/ /\ a.site >= 0 /\ b.site >= 0
+       /\ \/ body[a.site + 1].o \in Openers /\ b.site > a.site /\ b.site + 1 <= jt[a.site + 1].end
+          \/ body[b.site + 1].o \in Openers /\ a.site > b.site /\ a.site + 1 <= jt[b.site + 1].end
+
 APlan2 ==
-    /\ done /\ Len(plan) = 1 /\ MaxPlan >= 2 /\ Len(body) <= MaxLenPairs
+    /\ done /\ Len(plan) = 1 /\ MaxPlan >= 2
     /\ plan[1].api = "iter"
     /\ \E e \in ChoicesAt(1, FALSE) :
+         /\ Len(body) <= MaxLenPairs
+            \/ (Related(plan[1], e) /\ plan[1].mode \in SpecialModes /\ e.mode \in SpecialModes
+                /\ {plan[1].mode, e.mode} \cap {"block_alt", "empty_block_alt"} = {})
          /\ <<e.site, e.mode>> # <<plan[1].site, plan[1].mode>> \/ e.mode \in {"before", "after", "semantic_after"}
          \* a replacement and a removal of the same instruction: the statements do not say which wins
          /\ ~(e.site = plan[1].site /\ {e.mode, plan[1].mode} \in {{"alternate", "empty_alternate"}, {"block_alt", "empty_block_alt"}})
